@@ -79,13 +79,14 @@ def run(ctx, cases_override=None):
     # ---- MC: Exit |= C05 (+ fold agreement, JSON completeness, display), every case within the bound,
     #      every arrival order of the reports
     mc_n = 3 if thorough else 2
+    # heap: 10^7 states need well under 3g (fingerprints + disk-backed queue); a small heap keeps TLC off the OOM killer's list
     mc = ctx.tlc("Exit", "c05_mc.cfg", files={"c05_mc.cfg": CFG % (mc_n, "FALSE", MC_INVS)},
-                 timeout=3000, allow_violation=True)
+                 timeout=5400, allow_violation=True, heap="3g")
     leads = [mc["invariant_violated"]] if mc["invariant_violated"] else []
     # ---- GEN
     if cases_override is None:
         gen_n = 3 if thorough else 2
-        gen = ctx.tlc("Exit", "c05_gen.cfg", files={"c05_gen.cfg": CFG % (gen_n, "TRUE", "EmitCase")}, timeout=3000)
+        gen = ctx.tlc("Exit", "c05_gen.cfg", files={"c05_gen.cfg": CFG % (gen_n, "TRUE", "EmitCase")}, timeout=3000, heap="3g")
         cases = {key(v[0]): v[0] for v in prints(gen, "CASE")}
         n_exh = len(cases)
         rnd = random.Random(ctx.seed * 7919 + 1)
